@@ -457,8 +457,9 @@ def random_spec(seed: int, profile: Optional[Dict[str, Any]] = None) -> Dict[str
             bases.append(hb)
             a = rnd.choice([0, 3600 * rnd.randint(0, 23), rnd.randint(0, 86399), (start + dt * rnd.randint(0, 60)) % 86400])
             b = rnd.choice([a, 0, rnd.randint(0, 86399), (a + dt * rnd.randint(1, 40)) % 86400, (start + dt * rnd.randint(0, 80)) % 86400])
-            schedules.append({"id": f"sch{i}", "start": a, "end": b})
-            v["schedule"] = f"sch{i}"
+            sid_ = ["sch{}", "Shift{}", "DAY_{}", "late-Shift {}"][i % 4].format(i)  # ids are free text: case, blanks and dashes included
+            schedules.append({"id": sid_, "start": a, "end": b})
+            v["schedule"] = sid_
             v["home_base"] = hb["id"]
             n_human += 1
         vehicles.append(v)
